@@ -76,6 +76,16 @@ class Ctx:
     def consult(self, *rels):
         self.consulted.update(rels)
 
+    def unmatched_violations(self):
+        known = [k for k in load_known() if k.get("property") == self.prop and k.get("status", "known") == "known"]
+        out = []
+        for o in self.obs:
+            if o.ok:
+                continue
+            if not any(k["rule"] == o.rule and k["where"] == o.where and k["construct"] == o.construct for k in known):
+                out.append(o)
+        return out
+
     # -- finishing ---------------------------------------------------------
     def finish(self):
         known = [k for k in load_known() if k.get("property") == self.prop]
